@@ -100,8 +100,64 @@ func safeMarkPaths(v cty.Value, pvm []cty.PathValueMarks) (u cty.Value, panicked
 	return
 }
 
+// genTwins draws a value with two DIFFERENT members whose paths read the same
+// when written out as text without escaping (.a.b / ["a.b"], .a["k"] / ["a[\"k\"]"],
+// .l[1] / ["l[1]"] ...), with marks on one of them, on both (different marks),
+// or on their parents. Anything that identifies a path by such a rendering
+// confuses the two.
+func genTwins(t *rapid.T) spec.V {
+	leaf := func(label string, marks ...string) spec.V {
+		v := spec.KnownStr(rapid.SampledFrom([]string{"x", "y", "z"}).Draw(t, label))
+		v.Marks = marks
+		return v
+	}
+	var mk [2][]string
+	switch rapid.IntRange(0, 3).Draw(t, "which") {
+	case 0:
+		mk[0] = []string{"m1"}
+	case 1:
+		mk[1] = []string{"m2"}
+	default:
+		mk[0], mk[1] = []string{"m1"}, []string{"m2"}
+	}
+	obj := func(keys []string, elems []spec.V) spec.V {
+		return spec.V{T: spec.Object(), St: spec.Known, Keys: keys, Elems: elems}.Retype()
+	}
+	mp := func(keys []string, elems []spec.V) spec.V {
+		et := elems[0].T
+		return spec.V{T: spec.Map(et), St: spec.Known, Keys: keys, Elems: elems}
+	}
+	var v spec.V
+	switch rapid.IntRange(0, 5).Draw(t, "twinshape") {
+	case 0: // .a.b  vs  ["a.b"]
+		v = obj([]string{"a", "a.b"}, []spec.V{obj([]string{"b"}, []spec.V{leaf("l1", mk[0]...)}), leaf("l2", mk[1]...)})
+	case 1: // .a["k"] vs .["a[\"k\"]"] and the unquoted spelling
+		name := rapid.SampledFrom([]string{`a["k"]`, `a[k]`}).Draw(t, "twinname")
+		v = obj([]string{"a", name}, []spec.V{mp([]string{"k"}, []spec.V{leaf("l1", mk[0]...)}), leaf("l2", mk[1]...)})
+	case 2: // .l[1] vs ["l[1]"]
+		li := spec.V{T: spec.List(spec.String), St: spec.Known, Elems: []spec.V{leaf("l0"), leaf("l1", mk[0]...)}}
+		v = obj([]string{"l", "l[1]"}, []spec.V{li, leaf("l2", mk[1]...)})
+	case 3: // map keys: ["x"]["y"] vs ["x\"][\"y"]
+		inner := mp([]string{"y"}, []spec.V{leaf("l1", mk[0]...)})
+		v = obj([]string{"m", "n"}, []spec.V{mp([]string{"x"}, []spec.V{inner}), mp([]string{`x"]["y`}, []spec.V{leaf("l2", mk[1]...)})})
+		v = spec.V{T: spec.Tuple(), St: spec.Known, Elems: []spec.V{v.Elems[0], v.Elems[1]}}.Retype()
+	case 4: // tuple index vs attribute named like an index: [0].a vs ["[0].a"] below one object
+		tu := spec.V{T: spec.Tuple(), St: spec.Known, Elems: []spec.V{obj([]string{"a"}, []spec.V{leaf("l1", mk[0]...)})}}.Retype()
+		v = obj([]string{"t", "t[0].a", "t.0.a"}, []spec.V{tu, leaf("l2", mk[1]...), leaf("l3")})
+	default: // sibling attributes one of which is the other plus a suffix that looks like a step
+		v = obj([]string{"a", "a.b", "a.b.c"}, []spec.V{obj([]string{"b"}, []spec.V{obj([]string{"c"}, []spec.V{leaf("l1", mk[0]...)})}), obj([]string{"c"}, []spec.V{leaf("l2", mk[1]...)}), leaf("l3")})
+	}
+	if rapid.IntRange(0, 3).Draw(t, "wrap") == 0 {
+		v = spec.V{T: spec.List(v.T), St: spec.Known, Elems: []spec.V{v}}
+	}
+	return v
+}
+
 func genMarksIn(t *rapid.T) MarksIn {
 	in := MarksIn{V: genValue(t)}
+	if rapid.IntRange(0, 7).Draw(t, "twins") == 0 {
+		in.V = genTwins(t)
+	}
 	n := rapid.IntRange(0, 6).Draw(t, "norder")
 	for i := 0; i < n; i++ {
 		in.Order = append(in.Order, rapid.IntRange(0, 7).Draw(t, "ord"))
